@@ -34,3 +34,4 @@ def rules(ctx):
     S.flush_take_rules(ctx)
     S.oldest_search_rules(ctx)
     S.snapshot_atomic_rules(ctx)
+    S.round4_residue_rules(ctx)
